@@ -452,8 +452,8 @@ class EngineBase:
             return z3.BoolVal(len(v.items) > 0)
         if isinstance(v, Record):
             return z3.BoolVal(len(v.items) > 0)
-        if isinstance(v, (ObjV, ProcV, GenV, TupleV)):
-            return z3.BoolVal(True)
+        if isinstance(v, (ObjV, ProcV, GenV, TupleV, BoundMethod)):
+            return z3.BoolVal(True)       # objects, processes, non-empty tuples and bound methods are truthy
         raise OutOfSubset(f"truthiness of {v!r}")
 
     # ---------------------------------------------------------------- bags
